@@ -84,3 +84,38 @@ func (x *Index) GetLeafPosition(hash Hash) (uint64, bool) {
 	}
 	return x.calc(n), true
 }
+
+type Leaf struct {
+	Hash     Hash
+	Remember bool
+}
+
+type NodesInterface interface {
+	Get(uint64) (Leaf, bool)
+	Put(uint64, Leaf)
+	Delete(uint64)
+}
+
+type MapForest struct {
+	Nodes     NodesInterface
+	NumLeaves uint64
+	TotalRows uint8
+}
+
+func translate(pos uint64, from, to uint8) uint64 {
+	if pos>>from == 0 {
+		return pos
+	}
+	return pos - (uint64(1) << from) + (uint64(1) << to)
+}
+
+func (m *MapForest) GetHash(pos uint64) Hash {
+	if !inForest(pos, m.NumLeaves, TreeRows(m.NumLeaves)) {
+		return Hash{}
+	}
+	if m.TotalRows != TreeRows(m.NumLeaves) {
+		pos = translate(pos, TreeRows(m.NumLeaves), m.TotalRows)
+	}
+	leaf, _ := m.Nodes.Get(pos)
+	return leaf.Hash
+}
